@@ -164,6 +164,28 @@ example : mul_2exp 2 ⟨2, 2, 1, [B / 2, 1]⟩ 3 = ⟨2, 2, 1, [0, 12]⟩ := by 
 example : div_2exp 2 ⟨2, 1, 1, [12]⟩ 67 = ⟨2, 2, 0, [B / 2, 1]⟩ := by decide
 
 
+/-- mpf_mul_2exp / mpf_div_2exp with an operand of any length: the operand is first cut to prec limbs (prec+1 for a
+    whole-limb shift), then shifted exactly; the result is within the error bound. -/
+theorem mpf_mul_div_2exp_err (prec : Nat) (hp : 1 ≤ prec) (u : F) (e : Nat) (hu : OpWF u) (h0 : u.size ≠ 0) :
+    |toQ (mul_2exp prec u e) - toQ u * 2 ^ e| < eps prec * |toQ u * 2 ^ e| ∧
+    |toQ (div_2exp prec u e) - toQ u / 2 ^ e| < eps prec * |toQ u / 2 ^ e| := by
+  set n := (if e % 64 = 0 then prec + 1 else prec) with hn
+  have hpn : prec ≤ n := by rw [hn]; split <;> omega
+  obtain ⟨t1, t2, t3, t4, t5⟩ := truncOp_spec n prec hp hpn u hu h0
+  obtain ⟨m1, m2⟩ := mul_2exp_trunc prec u e n hn h0 t2 t3
+  have hlen : if e % 64 = 0 then (truncOp n u).d.length ≤ prec + 1 else (truncOp n u).d.length ≤ prec := by
+    by_cases h : e % 64 = 0
+    · rw [if_pos h]; have : n = prec + 1 := by rw [hn, if_pos h]
+      omega
+    · rw [if_neg h]; have : n = prec := by rw [hn, if_neg h]
+      omega
+  have h2 : (0 : ℚ) < (2 : ℚ) ^ e := by positivity
+  constructor
+  · rw [← m1, mul_2exp_exact prec _ e t1 hlen, ← sub_mul, abs_mul, abs_mul, abs_of_pos h2, ← mul_assoc]
+    exact mul_lt_mul_of_pos_right t5 h2
+  · rw [← m2, div_2exp_exact prec _ e t1 hlen, ← sub_div, abs_div, abs_div, abs_of_pos h2, ← mul_div_assoc]
+    exact div_lt_div_of_pos_right t5 h2
+
 /-! ### exact functions: floor, ceil, trunc, integer_p
 
 `hfit`: the integer part (min(|size|, exp) limbs) fits in the destination's prec+1 limbs; otherwise
